@@ -671,6 +671,25 @@ func variants(d *dagT, t *node, ks *keyring, rnd *rand.Rand) []*offerT {
 		h := h
 		b.sv("hdr/remove-"+h, func(s *spec, f *facts) { s.h = s.h.del(h); f.bad = "mandatory header " + h + " absent" })
 	}
+	// a mandatory header absent AND not announced as critical (or no crit list at all): whatever the crit list says, the header itself
+	// is mandatory by the property text. (Where the target is a root, an absent lc/prevs "defaults" to exactly the right value.)
+	for _, h := range []string{"lc", "prevs", "sigt", "ver"} {
+		h := h
+		var rest []string
+		for _, c := range []string{"sigt", "ver", "prevs", "lc"} {
+			if c != h {
+				rest = append(rest, strconv.Quote(c))
+			}
+		}
+		b.sv("hdr/remove-"+h+"-and-from-crit", func(s *spec, f *facts) {
+			s.h = s.h.del(h).set("crit", "["+strings.Join(rest, ",")+"]")
+			f.bad = "mandatory header " + h + " absent (and not listed in crit)"
+		})
+		b.sv("hdr/remove-"+h+"-no-crit", func(s *spec, f *facts) {
+			s.h = s.h.del(h).del("crit")
+			f.bad = "mandatory header " + h + " absent (no crit list)"
+		})
+	}
 	b.sv("hdr/remove-cty", func(s *spec, f *facts) { s.h = s.h.del("cty"); f.unspec = "cty-absent-or-not-a-mime-type" })
 	b.sv("hdr/cty-no-slash", func(s *spec, f *facts) { s.h = s.h.set("cty", `"text"`); f.unspec = "cty-absent-or-not-a-mime-type" })
 	b.sv("hdr/remove-crit", func(s *spec, f *facts) { s.h = s.h.del("crit"); f.unspec = "crit-list-absent-or-incomplete" })
@@ -689,6 +708,10 @@ func variants(d *dagT, t *node, ks *keyring, rnd *rand.Rand) []*offerT {
 		{"prevs-string", "prevs", `"` + strings.Trim(prevsJSON, `[]"`) + `"`}, {"prevs-object", "prevs", `{}`}, {"prevs-null", "prevs", `null`},
 		{"prevs-elem-number", "prevs", `[1]`}, {"prevs-elem-shorthex", "prevs", `["abcd"]`},
 		{"sigt-string", "sigt", `"1700000000"`}, {"sigt-bool", "sigt", `false`}, {"sigt-null", "sigt", `null`},
+		{"lc-empty-string", "lc", `""`}, {"lc-object", "lc", `{}`}, {"lc-empty-array", "lc", `[]`},
+		{"prevs-bool", "prevs", `false`}, {"prevs-empty-string", "prevs", `""`}, {"prevs-number", "prevs", `0`}, {"prevs-elem-null", "prevs", `[null]`}, {"prevs-elem-empty", "prevs", `[""]`},
+		{"sigt-array", "sigt", `[1700000000]`}, {"sigt-object", "sigt", `{}`}, {"sigt-empty-string", "sigt", `""`},
+		{"ver-bool", "ver", `true`}, {"ver-array", "ver", `[2]`}, {"ver-unsupported-negative", "ver", `-1`}, {"ver-empty-string", "ver", `""`},
 		{"ver-string", "ver", `"2"`}, {"ver-unsupported-3", "ver", `3`}, {"ver-unsupported-0", "ver", `0`}, {"ver-null", "ver", `null`},
 	} {
 		rt := rt
